@@ -89,14 +89,8 @@ def _worker_run(args):
     _WSEQ += 1
     try:
         res = _PROP.execute(state)
-    except Exception as e:  # harness error: never silently dropped
-        res = {
-            "violations": [],
-            "harness_error": f"{type(e).__name__}: {e}\n{traceback.format_exc()}",
-            "nontrivial": False,
-            "outcome": "harness_error",
-            "transitions": 0,
-        }
+    except Exception as e:  # never silently dropped: a violation if the library raised, a harness error otherwise
+        res = _exception_result(e)
     res["idx"] = idx
     res["wall"] = time.time() - t0
     res["wpid"] = os.getpid()
@@ -106,6 +100,35 @@ def _worker_run(args):
         res["cards"] = yr.pop_cardlog()
     _attach_failed_runs(res)
     return res
+
+
+def _exception_result(e):
+    """An exception escaping execute(): if any frame of its traceback is inside yadism the library raised on a scenario that completes on
+    the unchanged tree -> a violation of the running check (class library-exception, fingerprint = exception type + innermost yadism frame);
+    an exception without any yadism frame is a defect of the harness itself (HARNESS-ERROR, exit 3)."""
+    site = inner = None
+    yr = sys.modules.get("ymc.yrun")
+    if yr is not None:
+        try:
+            site = yr.yadism_site(e.__traceback__)
+            inner = yr.innermost_site(e.__traceback__)
+        except Exception:
+            site = None
+    text = f"{type(e).__name__}: {e}\n{traceback.format_exc()}"
+    if site:
+        return {
+            "violations": [
+                {
+                    "fp": {"cls": "library-exception", "exc": type(e).__name__, "site": site, "inner": inner},
+                    "fpkey": {"cls": "library-exception", "exc": type(e).__name__, "site": site},
+                    "msg": f"the library raised {type(e).__name__} at {site} ({inner}) during this check's scenario: {str(e)[:200]}",
+                }
+            ],
+            "nontrivial": True,
+            "outcome": f"library-exception:{type(e).__name__}:{site}",
+            "transitions": 1,
+        }
+    return {"violations": [], "harness_error": text, "nontrivial": False, "outcome": "harness_error", "transitions": 0}
 
 
 def _attach_failed_runs(res):
@@ -146,7 +169,7 @@ def _worker_sweep(args):
             try:
                 res = _PROP.execute(state)
             except Exception as e:
-                res = {"violations": [], "harness_error": f"{type(e).__name__}: {e}\n{traceback.format_exc()}", "outcome": "harness_error"}
+                res = _exception_result(e)
             _attach_failed_runs(res)
             oc = res.get("outcome")
             oc = canon(sorted(oc) if isinstance(oc, (list, tuple, set)) else oc)
@@ -569,7 +592,12 @@ def run_replay(prop, path):
             _attach_failed_runs({})
         except Exception:
             pass
-    res = prop.execute(state)
+    try:
+        res = prop.execute(state)
+    except Exception as e:
+        res = _exception_result(e)
+        if res.get("harness_error"):
+            raise
     _attach_failed_runs(res)
     vs = res.get("violations", [])
     if hasattr(prop, "finalize") and not vs and rep.get("fp", {}).get("finalize"):
